@@ -1,6 +1,6 @@
 (* Extract.v — extraction of the executable model.  ExtrOcamlBasic only. *)
 From Coq Require Import Extraction ExtrOcamlBasic.
 From Verif.Base Require Import Bytes GoNum Ord.
-From Verif.Eco Require Import RangeCore All.
+From Verif.Eco Require Import RangeCore Iface All.
 Extraction Language OCaml.
 Extraction "model.ml" ecosystems find_eco self_vok self_vcmp r_show r_contains v_show v_cmp.
